@@ -28,6 +28,11 @@ def describe(rep):
 
     rep.func(filter_stats, sort_stats, get_sorted, get_list_of_types, Hooks.add_to_stats, Hooks.increment_stats, DefaultHooks.post_step,
              LogWork.post_step, LogSDCIterations.post_step, LogSolution.post_step, LogRestarts.post_step, LogStepSize.post_step)
+    from pySDC.core.controller import Controller
+    from pySDC.implementations.hooks.log_errors import LogGlobalErrorPostStep, LogLocalErrorPostStep
+    from pySDC.implementations.hooks.log_embedded_error_estimate import LogEmbeddedErrorEstimate
+
+    rep.func(Controller.add_hook, Controller.return_stats, LogGlobalErrorPostStep.post_step, LogLocalErrorPostStep.post_step, LogEmbeddedErrorEstimate.post_step)
     rep.explanation = (
         '(a) helpers: the real filter_stats/get_list_of_types run on statistics dictionaries whose Entry keys carry symbolic integer time, '
         'level and iter fields (restart generation and type enumerated): every comparison forks, on each path the surviving key set is '
@@ -35,12 +40,15 @@ def describe(rep):
         'a coverage certificate; sort_stats is decided by CrossHair contracts over symbolic int lists. (b) runs: on every explored '
         'convergence pattern (C07 exploration) and restart history (C09 exploration) of the real controller, with all logging hooks attached: '
         'one record per accepted step and recorded type survives, keyed by the true time / restart count; niter = number of iteration '
-        'callbacks; work_rhs = number of right-hand-side evaluations actually made; no silent key collisions between attempts.'
+        'callbacks; work_rhs = number of right-hand-side evaluations actually made; no silent key collisions between attempts. The hooks attached to '
+        'the histories: default, LogWork, LogSDCIterations, LogSolution, LogStepSize, LogRestarts, LogGlobalErrorPostStep, LogLocalErrorPostStep, '
+        'LogEmbeddedErrorEstimate registered after its subclass ...PostIter. (c) registration (ENUMERATED, concrete): for all ordered pairs of the '
+        'shipped hook classes (found by introspection) and both routes (hook_class list, add_hook) each requested class is registered exactly once.'
     )
     rep.rule = 'case = path of filter_stats on a symbolic dictionary / one explored history of the real controller'
     rep.assume('dictionary keys are pairwise distinct (contract of a dict)', 'restart generations 0..2 and the entry types are enumerated, not symbolic',
                'histories: fixed exactly representable dt; restart requests injected symbolically')
-    rep.out_of_scope('error-logging hooks (need exact solutions)', 'timing hooks', 'MPI gathering of statistics', 'more than 4 dictionary entries')
+    rep.out_of_scope('per-iteration error hooks, extrapolation estimate hook', 'values of the timing hooks', 'file-writing hooks (LogToFile, pickle)', 'MPI gathering of statistics', 'more than 4 dictionary entries')
 
 
 def tasks(tier, seed):
@@ -61,6 +69,7 @@ def tasks(tier, seed):
             T.append(('filter', sh[0], sh[1], mode))
     T.append(('filter_flagged', 3))
     T.append(('types', n_entries))
+    T.append(('hookreg',))
     from harness import c07, c09
 
     for t in c07.tasks(tier, seed):
@@ -81,6 +90,8 @@ def run_task(rep, task):
         filter_flagged_case(rep, task[1])
     elif task[0] == 'types':
         types_case(rep, task[1])
+    elif task[0] == 'hookreg':
+        hookreg_case(rep)
     elif task[0] == 'ctrl':
         from harness import c07
 
@@ -252,6 +263,69 @@ def types_case(rep, n):
 # ------------------------------------------------------------------------------------------------ (b) histories with all hooks
 
 CALLS = {'add': [], 'evals': 0, 'iters': {}, 'work': {}}
+def shipped_hooks():
+    """every hook class defined in pySDC.implementations.hooks that can be imported and instantiated here (found by introspection of the tree)"""
+    import importlib
+    import inspect
+    import pkgutil
+
+    import pySDC.implementations.hooks as pkg
+
+    out, skipped = [], []
+    for mi in pkgutil.iter_modules(pkg.__path__):
+        try:
+            mod = importlib.import_module(f'{pkg.__name__}.{mi.name}')
+        except Exception as e:
+            skipped.append((mi.name, type(e).__name__))
+            continue
+        for nm, cls in inspect.getmembers(mod, inspect.isclass):
+            if issubclass(cls, Hooks) and cls.__module__ == mod.__name__:
+                try:
+                    cls()
+                    out.append(cls)
+                except Exception as e:
+                    skipped.append((nm, type(e).__name__))
+    return out, skipped
+
+
+def hookreg_case(rep):
+    """registration: whatever the order and route (hook_class list, add_hook by a convergence controller), every requested shipped hook class takes
+    part exactly once (a hook that is silently not registered contributes no record at all).  ENUMERATED: all ordered pairs of shipped hooks."""
+    from harness import c09
+    from pySDC.implementations.controller_classes.controller_nonMPI import controller_nonMPI
+
+    hooks, skipped = shipped_hooks()
+    usable = []
+    for A in hooks:  # a hook that cannot be registered on its own here (missing optional package) is outside the claim
+        try:
+            controller_nonMPI(1, {'logger_level': 50, 'dump_setup': False, 'hook_class': [A]}, c09.base_desc())
+            usable.append(A)
+        except Exception as e:
+            skipped.append((A.__name__, f'{type(e).__name__}: {e}'[:80]))
+    hooks = usable
+    rep.extra['shipped_hooks'] = [h.__name__ for h in hooks]
+    rep.extra['hooks_not_instantiable_here'] = skipped
+    for A in hooks:
+        for B in hooks:
+            for route in ('list', 'add_hook'):
+                name = f'hookreg/{A.__name__}+{B.__name__}/{route}'
+                try:
+                    ctl = controller_nonMPI(1, {'logger_level': 50, 'dump_setup': False, 'hook_class': [A, B] if route == 'list' else [A]}, c09.base_desc())
+                    if route == 'add_hook':
+                        ctl.add_hook(B)
+                    ty = [type(h) for h in ctl.hooks]
+                    bad = [c.__name__ for c in {A, B} if ty.count(c) != 1]
+                    rep.translator += 1
+                    if bad:
+                        rep.violation(f'{PID}/hook-registered-exactly-once/{route}', f'{name}: requested hook classes registered {[(c.__name__, ty.count(c)) for c in (A, B)]} times; '
+                                      f'controller.hooks = {[t.__name__ for t in ty]}', {'task': ['hookreg'], 'A': A.__name__, 'B': B.__name__, 'route': route})
+                        return
+                except Exception as e:
+                    rep.side(name, False, f'{type(e).__name__}: {e}')
+                    return
+    rep.side('hookreg/all-ordered-pairs', True)
+
+
 _orig_add = Hooks.add_to_stats
 
 
@@ -285,8 +359,19 @@ class Count(Hooks):
                                             P.__dict__.get('_c14_evals', 0) - CALLS['work'][a], int(step.status.restarts_in_a_row), float(step.levels[0].dt)))
 
 
+class SetEst(Hooks):
+    """gives the level an (arbitrary, non-zero) embedded error estimate so that the shipped estimate hooks have something to record"""
+
+    def pre_iteration(self, step, level_number):
+        super().pre_iteration(step, level_number)
+        for L in step.levels:
+            L.status.__dict__['error_embedded_estimate'] = 0.5  # the status class is frozen; the real estimators register the variable first
+
+
 def hist_case(rep, NP, MAXR, NSTEPS, FIRST, CRASH, prefix, shrink=False):
     from harness import c09
+    from pySDC.implementations.hooks.log_errors import LogGlobalErrorPostStep, LogLocalErrorPostStep
+    from pySDC.implementations.hooks.log_embedded_error_estimate import LogEmbeddedErrorEstimate, LogEmbeddedErrorEstimatePostIter
     from pySDC.implementations.hooks.log_work import LogWork, LogSDCIterations
     from pySDC.implementations.hooks.log_solution import LogSolution
     from pySDC.implementations.hooks.log_step_size import LogStepSize
@@ -305,7 +390,8 @@ def hist_case(rep, NP, MAXR, NSTEPS, FIRST, CRASH, prefix, shrink=False):
     def fn(c):
         CALLS.clear()
         CALLS.update({'add': [], 'iters': {}, 'work': {}, 'post': [], 'attempt': 0})
-        r = c09.hist_run(c, NP, MAXR, NSTEPS, FIRST, CRASH, extra_hooks=[LogWork, LogSDCIterations, LogSolution, LogStepSize, Count], shrink=shrink)
+        r = c09.hist_run(c, NP, MAXR, NSTEPS, FIRST, CRASH, extra_hooks=[SetEst, LogEmbeddedErrorEstimatePostIter, LogWork, LogSDCIterations, LogSolution, LogStepSize, LogGlobalErrorPostStep,
+                                                                           LogLocalErrorPostStep, LogEmbeddedErrorEstimate, Count], shrink=shrink)
         bad = []
         if r['status'] == 'ok':
             bad = judge_stats(r, NP)
@@ -348,7 +434,7 @@ def judge_stats(r, NP):
     acc = [l for l in r['log'] if not l[5]]
     posts = [p for p in CALLS['post'] if not p[2]]  # accepted attempts: (attempt, time, restart, iters, evals, restarts_in_a_row)
     start_types = ['niter', 'residual_post_step', 'restart', 'dt']
-    end_types = ['u', 'k', 'work_rhs']
+    end_types = ['u', 'k', 'work_rhs', 'e_global_post_step', 'e_local_post_step', 'error_embedded_estimate']
     for typ in start_types + end_types:
         recs = filter_stats(st, type=typ, recomputed=False)
         times = sorted(round(float(k.time), 9) for k in recs)
@@ -393,6 +479,18 @@ def replay(path):
         obs, exp = filter_concrete(t[1], t[2], t[3], d['vals'])
         print('observed', obs, 'expected', exp)
         bad = obs != exp
+    elif t[0] == 'hookreg':
+        from harness import c09
+        from pySDC.implementations.controller_classes.controller_nonMPI import controller_nonMPI
+
+        hooks = {h.__name__: h for h in shipped_hooks()[0]}
+        A, B = hooks[d['A']], hooks[d['B']]
+        ctl = controller_nonMPI(1, {'logger_level': 50, 'dump_setup': False, 'hook_class': [A, B] if d['route'] == 'list' else [A]}, c09.base_desc())
+        if d['route'] == 'add_hook':
+            ctl.add_hook(B)
+        ty = [type(h) for h in ctl.hooks]
+        print('controller.hooks =', [t.__name__ for t in ty])
+        bad = any(ty.count(c) != 1 for c in {A, B})
     elif t[0] == 'hist':
         from symx.report import Report
 
